@@ -55,6 +55,18 @@ Props/C01OpsD.vos Props/C01OpsD.vok Props/C01OpsD.required_vos: Props/C01OpsD.v 
 Props/C01OpsE.vo Props/C01OpsE.glob Props/C01OpsE.v.beautified Props/C01OpsE.required_vo: Props/C01OpsE.v Spec/ISA.vo Spec/Spec816.vo Lib/ZOps.vo Lib/Machine.vo Snapshot/GenFields.vo Snapshot/GenCpu65.vo Props/C01Base.vo
 Props/C01OpsE.vio: Props/C01OpsE.v Spec/ISA.vio Spec/Spec816.vio Lib/ZOps.vio Lib/Machine.vio Snapshot/GenFields.vio Snapshot/GenCpu65.vio Props/C01Base.vio
 Props/C01OpsE.vos Props/C01OpsE.vok Props/C01OpsE.required_vos: Props/C01OpsE.v Spec/ISA.vos Spec/Spec816.vos Lib/ZOps.vos Lib/Machine.vos Snapshot/GenFields.vos Snapshot/GenCpu65.vos Props/C01Base.vos
-Props/C01Props.vo Props/C01Props.glob Props/C01Props.v.beautified Props/C01Props.required_vo: Props/C01Props.v Spec/ISA.vo Spec/Spec816.vo Lib/ZOps.vo Lib/Machine.vo Snapshot/GenFields.vo Snapshot/GenCpu65.vo Props/C01Base.vo Props/C01OpsA.vo Props/C01OpsB.vo Props/C01OpsC.vo Props/C01OpsD.vo Props/C01OpsE.vo
-Props/C01Props.vio: Props/C01Props.v Spec/ISA.vio Spec/Spec816.vio Lib/ZOps.vio Lib/Machine.vio Snapshot/GenFields.vio Snapshot/GenCpu65.vio Props/C01Base.vio Props/C01OpsA.vio Props/C01OpsB.vio Props/C01OpsC.vio Props/C01OpsD.vio Props/C01OpsE.vio
-Props/C01Props.vos Props/C01Props.vok Props/C01Props.required_vos: Props/C01Props.v Spec/ISA.vos Spec/Spec816.vos Lib/ZOps.vos Lib/Machine.vos Snapshot/GenFields.vos Snapshot/GenCpu65.vos Props/C01Base.vos Props/C01OpsA.vos Props/C01OpsB.vos Props/C01OpsC.vos Props/C01OpsD.vos Props/C01OpsE.vos
+Props/C01Shift.vo Props/C01Shift.glob Props/C01Shift.v.beautified Props/C01Shift.required_vo: Props/C01Shift.v Spec/ISA.vo Spec/Spec816.vo Lib/ZOps.vo Lib/Machine.vo Snapshot/GenFields.vo Snapshot/GenCpu65.vo Props/C01Base.vo
+Props/C01Shift.vio: Props/C01Shift.v Spec/ISA.vio Spec/Spec816.vio Lib/ZOps.vio Lib/Machine.vio Snapshot/GenFields.vio Snapshot/GenCpu65.vio Props/C01Base.vio
+Props/C01Shift.vos Props/C01Shift.vok Props/C01Shift.required_vos: Props/C01Shift.v Spec/ISA.vos Spec/Spec816.vos Lib/ZOps.vos Lib/Machine.vos Snapshot/GenFields.vos Snapshot/GenCpu65.vos Props/C01Base.vos
+Props/C01OpsF.vo Props/C01OpsF.glob Props/C01OpsF.v.beautified Props/C01OpsF.required_vo: Props/C01OpsF.v Spec/ISA.vo Spec/Spec816.vo Lib/ZOps.vo Lib/Machine.vo Snapshot/GenFields.vo Snapshot/GenCpu65.vo Props/C01Base.vo
+Props/C01OpsF.vio: Props/C01OpsF.v Spec/ISA.vio Spec/Spec816.vio Lib/ZOps.vio Lib/Machine.vio Snapshot/GenFields.vio Snapshot/GenCpu65.vio Props/C01Base.vio
+Props/C01OpsF.vos Props/C01OpsF.vok Props/C01OpsF.required_vos: Props/C01OpsF.v Spec/ISA.vos Spec/Spec816.vos Lib/ZOps.vos Lib/Machine.vos Snapshot/GenFields.vos Snapshot/GenCpu65.vos Props/C01Base.vos
+Props/C01OpsG.vo Props/C01OpsG.glob Props/C01OpsG.v.beautified Props/C01OpsG.required_vo: Props/C01OpsG.v Spec/ISA.vo Spec/Spec816.vo Lib/ZOps.vo Lib/Machine.vo Snapshot/GenFields.vo Snapshot/GenCpu65.vo Props/C01Base.vo Props/C01Shift.vo
+Props/C01OpsG.vio: Props/C01OpsG.v Spec/ISA.vio Spec/Spec816.vio Lib/ZOps.vio Lib/Machine.vio Snapshot/GenFields.vio Snapshot/GenCpu65.vio Props/C01Base.vio Props/C01Shift.vio
+Props/C01OpsG.vos Props/C01OpsG.vok Props/C01OpsG.required_vos: Props/C01OpsG.v Spec/ISA.vos Spec/Spec816.vos Lib/ZOps.vos Lib/Machine.vos Snapshot/GenFields.vos Snapshot/GenCpu65.vos Props/C01Base.vos Props/C01Shift.vos
+Props/C01OpsH.vo Props/C01OpsH.glob Props/C01OpsH.v.beautified Props/C01OpsH.required_vo: Props/C01OpsH.v Spec/ISA.vo Spec/Spec816.vo Lib/ZOps.vo Lib/Machine.vo Snapshot/GenFields.vo Snapshot/GenCpu65.vo Props/C01Base.vo Props/C01Shift.vo
+Props/C01OpsH.vio: Props/C01OpsH.v Spec/ISA.vio Spec/Spec816.vio Lib/ZOps.vio Lib/Machine.vio Snapshot/GenFields.vio Snapshot/GenCpu65.vio Props/C01Base.vio Props/C01Shift.vio
+Props/C01OpsH.vos Props/C01OpsH.vok Props/C01OpsH.required_vos: Props/C01OpsH.v Spec/ISA.vos Spec/Spec816.vos Lib/ZOps.vos Lib/Machine.vos Snapshot/GenFields.vos Snapshot/GenCpu65.vos Props/C01Base.vos Props/C01Shift.vos
+Props/C01Props.vo Props/C01Props.glob Props/C01Props.v.beautified Props/C01Props.required_vo: Props/C01Props.v Spec/ISA.vo Spec/Spec816.vo Lib/ZOps.vo Lib/Machine.vo Snapshot/GenFields.vo Snapshot/GenCpu65.vo Props/C01Base.vo Props/C01Shift.vo Props/C01OpsA.vo Props/C01OpsB.vo Props/C01OpsC.vo Props/C01OpsD.vo Props/C01OpsE.vo Props/C01OpsF.vo Props/C01OpsG.vo Props/C01OpsH.vo
+Props/C01Props.vio: Props/C01Props.v Spec/ISA.vio Spec/Spec816.vio Lib/ZOps.vio Lib/Machine.vio Snapshot/GenFields.vio Snapshot/GenCpu65.vio Props/C01Base.vio Props/C01Shift.vio Props/C01OpsA.vio Props/C01OpsB.vio Props/C01OpsC.vio Props/C01OpsD.vio Props/C01OpsE.vio Props/C01OpsF.vio Props/C01OpsG.vio Props/C01OpsH.vio
+Props/C01Props.vos Props/C01Props.vok Props/C01Props.required_vos: Props/C01Props.v Spec/ISA.vos Spec/Spec816.vos Lib/ZOps.vos Lib/Machine.vos Snapshot/GenFields.vos Snapshot/GenCpu65.vos Props/C01Base.vos Props/C01Shift.vos Props/C01OpsA.vos Props/C01OpsB.vos Props/C01OpsC.vos Props/C01OpsD.vos Props/C01OpsE.vos Props/C01OpsF.vos Props/C01OpsG.vos Props/C01OpsH.vos
